@@ -44,7 +44,10 @@ def gen_cases(tier, seed):
             if rep % 4 == 3 and la == lb:
                 nsh = 1
             ls = [la, lb][:nsh] + [int(rng.integers(0, 4)) for _ in range(max(0, nsh - 2))]
-            shells, classes = bases.rand_basis(rng, ls, scale=1.2)
+            sym = bool(nsh >= 3 and lb <= 2 and rng.random() < 0.5)  # equivalent atoms around a centre (XH2, XH3)
+            if sym:
+                ls = [la, lb] + [lb] * (nsh - 2)
+            shells, classes = bases.rand_basis(rng, ls, scale=1.2, symmetric=True if sym else None)
             if rep % 2 == 1 and nsh == 2:
                 shells, classes = bases.window_pair(rng, la, lb)
             cases.append({"shells": shells, "classes": classes + ["l:%d,%d" % (la, lb), "nsh:%d" % nsh],
